@@ -27,6 +27,9 @@ type C01Case struct {
 	// pauses 40 s (virtual) before every segment - slower than the write timeout, faster than the read timeout.
 	LineMax int  `json:"line_max,omitempty"`
 	Slow    bool `json:"slow,omitempty"`
+	// AfterBdat: a chunked message of 10 octets is transferred on the same connection first, and the size limit is
+	// one that both messages fit separately but not together
+	AfterBdat bool `json:"after_bdat,omitempty"`
 }
 
 type segReader struct {
@@ -98,10 +101,14 @@ func evalC01(c C01Case) (f *h.Finding) {
 		return nil
 	case "server":
 		be := &h.Backend{Plan: func(int) h.DataPlan { return h.DataPlan{Buf: c.Buf, Max: -1} }}
-		full := append([]byte(c01Prologue), c.Stream...)
-		cuts := []int{len(c01Prologue)}
+		prologue := c01Prologue
+		if c.AfterBdat {
+			prologue = "EHLO c.example\r\nMAIL FROM:<ok@a0.example>\r\nRCPT TO:<ok@b0.example>\r\nBDAT 10 LAST\r\n0123456789" + strings.TrimPrefix(c01Prologue, "EHLO c.example\r\n")
+		}
+		full := append([]byte(prologue), c.Stream...)
+		cuts := []int{len(prologue)}
 		for _, k := range c.Cuts {
-			cuts = append(cuts, len(c01Prologue)+k)
+			cuts = append(cuts, len(prologue)+k)
 		}
 		cfg := h.Config{MaxMessageBytes: c.Limit, MaxLineLength: c.LineMax}
 		if c.Slow {
@@ -113,6 +120,9 @@ func evalC01(c C01Case) (f *h.Finding) {
 		}
 		var data *h.Event
 		for i := range o.Trace {
+			if o.Trace[i].Kind == "Data" && o.Trace[i].From == "ok@a0.example" {
+				continue // the chunked message in front
+			}
 			if o.Trace[i].Kind == "Data" {
 				if data != nil {
 					return h.F("c01-two-data", "stream %q: more than one Data call: %s", c.Stream, h.Calls(o.Trace))
@@ -204,7 +214,7 @@ func C01(tier string) int {
 		limits = []int64{0, 1 << 20}
 		allSegUpTo = 7
 	}
-	run.Rule = fmt.Sprintf("every octet stream body+CRLF.CRLF+tail and .CRLF+tail with body over the class alphabet {'.',CR,LF,'a'} of length<=%d (reader seam) / <=%d (full server path), each x segmentations {one segment, one octet per segment, every 2-split%s} x backend read sizes %v x size limit {none, exactly the message size (bodies <= 8)}; distinct by construction (enumeration), non-trivial = body contains '.', CR or LF. Plus (full server path) lines of exactly the maximal permitted length, 1 and 5 less, behind/in front of other lines with the segment boundary at EVERY position (MaxLineLength 32; default 2000 with the line's CR at octets 4094..4098 of the connection, i.e. around the server's read-buffer boundary), and all bodies <=4 from a SLOW peer (40 s virtual pause before every segment, WriteTimeout 10 s, ReadTimeout 30 min; the scripted connection honours the armed read deadline). Oracle: ref.Unstuff. Random 256-octet streams are a labelled supplement (counters.random_supplement) and not part of 'exhaustive'.",
+	run.Rule = fmt.Sprintf("every octet stream body+CRLF.CRLF+tail and .CRLF+tail with body over the class alphabet {'.',CR,LF,'a'} of length<=%d (reader seam) / <=%d (full server path), each x segmentations {one segment, one octet per segment, every 2-split%s} x backend read sizes %v x size limit {none, exactly the message size (bodies <= 8)}; distinct by construction (enumeration), non-trivial = body contains '.', CR or LF. Plus (full server path) lines of exactly the maximal permitted length, 1 and 5 less, behind/in front of other lines with the segment boundary at EVERY position (MaxLineLength 32; default 2000 with the line's CR at octets 4094..4098 of the connection, i.e. around the server's read-buffer boundary), and all bodies <=4 from a SLOW peer (40 s virtual pause before every segment, WriteTimeout 10 s, ReadTimeout 30 min; the scripted connection honours the armed read deadline). All bodies <=5 once more as the SECOND message of the connection, behind a chunked one, under a size limit that each message fits but not both together. Oracle: ref.Unstuff. Random 256-octet streams are a labelled supplement (counters.random_supplement) and not part of 'exhaustive'.",
 		L, LS, map[bool]string{true: fmt.Sprintf(", all 2^(n-1) segmentations for streams of <=%d+5 octets", allSegUpTo), false: ""}[allSegUpTo > 0], bufs)
 	run.Assumptions = []string{
 		"the reader branches only on '.', CR, LF vs. any other octet, so one representative 'a' stands for the 253 other octets (the random supplement exercises all 256 values)",
@@ -373,6 +383,16 @@ func C01(tier string) int {
 		for cut := 1; cut < len(b)+5; cut++ {
 			lcases = append(lcases, C01Case{Seam: "server", Stream: stream, Cuts: []int{cut}, Buf: 4096, Slow: true})
 		}
+	})
+	// A chunked message first, then the DATA message, under a size limit that each fits but not both together
+	enumStrings(c01Alphabet, 5, func(b []byte) {
+		stream := mk(b)
+		want, _, _ := ref.Unstuff(stream)
+		lim := int64(len(want))
+		if lim < 10 {
+			lim = 10
+		}
+		lcases = append(lcases, C01Case{Seam: "server", Stream: stream, Buf: 4096, AfterBdat: true, Limit: lim}, C01Case{Seam: "server", Stream: stream, Buf: 2, AfterBdat: true, Limit: lim, Cuts: perOctetCuts(len(stream))})
 	})
 	run.Counter("max_length_line_and_slow_peer_cases", int64(len(lcases)))
 	h.ParallelFor(len(lcases), func(i int) {
